@@ -162,7 +162,18 @@ def check(ctx, kind, store, header, nrows, bad_at, bad_kind, limit, api):
                 argv += ["--until", "-1"]
             argv += [cid_path, source]
             try:
-                code = applications.main(argv)
+                if (header + nrows + (limit or 0)) % 3 == 0:
+                    # one application object used for a second command line: set_options() resets the options (the
+                    # first command line had another limit)
+                    app = applications.CutplaceApp()
+                    app.set_options(["cutplace", "--log", "critical", "--until", "0", cid_path])
+                    app.set_options(argv)
+                    for data_path in app.data_paths:
+                        app.validate(data_path)
+                    code = 0 if app.all_validations_were_ok else 1
+                    ctx.count("api.main.application-object-reused")
+                else:
+                    code = applications.main(argv)
             except SystemExit as exit_:
                 code = "SystemExit(%s)" % exit_.code
             want = 1 if first_error is not None else 0
